@@ -432,7 +432,7 @@ fn used_imports<'a, 'b: 'a>(
     data: &'b ParsedData,
     all_types: &'a CrateTypes,
 ) -> ScopedCrateTypes<'a> {
-    let mut used_imports = BTreeMap::new();
+    let mut used_imports: ScopedCrateTypes<'a> = BTreeMap::new();
 
     // If we have reference that is a re-export we can attempt to find it with the
     // following heuristic.
@@ -477,9 +477,8 @@ fn used_imports<'a, 'b: 'a>(
                 // We can have "*" wildcard here. We need to add all.
                 used_imports
                     .entry(&referenced_import.base_crate)
-                    .and_modify(|names: &mut BTreeSet<&str>| {
-                        names.extend(type_names.iter().map(|s| s.as_str()))
-                    });
+                    .or_default()
+                    .extend(type_names.iter().map(|s| s.as_str()));
             } else if let Some(ty_name) = type_names.get(&referenced_import.type_name) {
                 // Add referenced import for each matching type.
                 used_imports
